@@ -63,25 +63,29 @@ def slabAxis (mn mx o inv : α) : α × α :=
   let b := (mx - o) * inv
   if isNaN a || isNaN b then swapGt (-(Num.inf : α)) Num.inf else swapGt a b
 
-/-- `BBox3D::intersect(ray, inv_dir)` -/
-def intersect (s : BBox α) (ray : Ray α) (inv : V3 α) : Bool :=
-  let g : α := 1 + 2 * gamma (3 : α)
-  let tx := slabAxis s.min.x s.max.x ray.origin.x inv.x
+/-- the comparison cascade of `BBox3D::intersect` on the three ordered slab intervals (`g = 1 + 2·γ(3)`).
+    (The Rust code interleaves the slab computations with the early exits; the slabs are pure, so the result is the same.) -/
+def slabCascade (g : α) (tx ty tz : α × α) : Bool :=
   if tx.2 <. (0 : α) then false else
-  let ty := slabAxis s.min.y s.max.y ray.origin.y inv.y
   if ty.2 <. (0 : α) then false else
   let txMax := tx.2 * g
   let tyMax := ty.2 * g
   if tx.1 >. tyMax || ty.1 >. txMax then false else
   let txMin := if ty.1 >. tx.1 then ty.1 else tx.1
   let txMax := if tyMax <. txMax then tyMax else txMax
-  let tz := slabAxis s.min.z s.max.z ray.origin.z inv.z
   if tz.2 <. (0 : α) then false else
   let tzMax := tz.2 * g
   if txMin >. tzMax || tz.1 >. txMax then false else
   let txMin := if tz.1 >. txMin then tz.1 else txMin
   let txMax := if tzMax <. txMax then tzMax else txMax
   txMax >. txMin && txMax >. (0 : α)
+
+/-- `BBox3D::intersect(ray, inv_dir)` -/
+def intersect (s : BBox α) (ray : Ray α) (inv : V3 α) : Bool :=
+  slabCascade (1 + 2 * gamma (3 : α))
+    (slabAxis s.min.x s.max.x ray.origin.x inv.x)
+    (slabAxis s.min.y s.max.y ray.origin.y inv.y)
+    (slabAxis s.min.z s.max.z ray.origin.z inv.z)
 
 end BBox
 end G3d
